@@ -184,7 +184,8 @@ static struct op begin(const char *kind, const char *p1, const char *p2, long fl
         /* raise() = thread-directed: the handler has run (or the default action has been taken) when it returns, so the
          * signal has arrived strictly before operation n is performed. A process-directed kill() may be handled by another
          * thread a few instructions later, which would blur "before operation n". */
-        else if (!strcmp(a, "sig")) { logf_("F %ld sig:%ld\n", o.n, o.r->arg); raise((int)o.r->arg); }
+        else if (!strcmp(a, "sig")) { logf_("F %ld sig:%ld\n", o.n, o.r->arg); raise((int)o.r->arg);
+            struct timespec ts = { 0, 3000000L }; nanosleep(&ts, NULL); }
         else if (!strcmp(a, "psig")) { logf_("F %ld psig:%ld\n", o.n, o.r->arg); kill(getpid(), (int)o.r->arg); }
         else if (!strcmp(a, "delay")) { logf_("F %ld delay:%ld\n", o.n, o.r->arg);
             struct timespec ts = { o.r->arg / 1000, (o.r->arg % 1000) * 1000000L }; nanosleep(&ts, NULL); }
